@@ -1,5 +1,6 @@
-// GENERATED on every run by vlib/extract.py from /tmp/refcheck-18294 -- do not edit
+// GENERATED on every run by vlib/extract.py from /tmp/clean0 -- do not edit
 #![allow(unused_imports, unused_variables, unused_mut, dead_code, unused_parens, unused_braces, non_snake_case)]
+#![feature(allocator_api)]
 use vstd::prelude::*;
 use core::cmp::Ordering;
 use core::marker::PhantomData;
@@ -1691,6 +1692,31 @@ if let Some(checksum) = (match this.parts.qualifiers.try_get_typed::<Checksum>()
         }
         let GenericPurlBuilder { package_type, parts } = this;
         Ok(GenericPurl { package_type, parts })
+    }
+}
+impl<T> GenericPurl<T> {
+// ---- unit U-acc.builder  <= purl/src/lib.rs:258 ----
+#[verifier::external_body]
+pub fn builder<S>(package_type: T, name: S) -> (r: GenericPurlBuilder<T>)
+where SmallString: From<S>, T: PurlShape,
+        ensures r.package_type == package_type,
+            r.parts.namespace@.len() == 0, r.parts.version@.len() == 0, r.parts.subpath@.len() == 0, r.parts.qualifiers.qualifiers@.len() == 0,
+            <SmallString as vstd::std_specs::convert::FromSpec<S>>::obeys_from_spec() ==> r.parts.name == <SmallString as vstd::std_specs::convert::FromSpec<S>>::from_spec(name)
+{ unimplemented!() }
+// ---- unit U-acc.new  <= purl/src/lib.rs:273 ----
+pub fn new<S>(package_type: T, name: S) -> (r: Result<Self, T::Error>)
+where SmallString: From<S>, T: PurlShape,
+        ensures
+            exists|b: GenericPurlBuilder<T>, t1: T, p1: PurlParts, fr: Result<(), T::Error>|
+                b.package_type == package_type && b.parts.namespace@.len() == 0 && b.parts.version@.len() == 0 && b.parts.subpath@.len() == 0
+                && b.parts.qualifiers.qualifiers@.len() == 0
+                && (<SmallString as vstd::std_specs::convert::FromSpec<S>>::obeys_from_spec() ==> b.parts.name == <SmallString as vstd::std_specs::convert::FromSpec<S>>::from_spec(name))
+                && #[trigger] T::finish_rel(b.package_type, b.parts, t1, p1, fr) && build_post::<T>(t1, p1, fr, r),
+            r is Ok ==> r->Ok_0.parts.qualifiers.wf() && r->Ok_0.parts.name@.len() > 0
+{
+        
+        proof { assert(wf_seq(Seq::<(QualifierKey, SmallString)>::empty())); }
+Self::builder(package_type, name).build()
     }
 }
 
